@@ -311,13 +311,23 @@ def self_check_3c(ctx, root, case, rcls, site, out, comps, base_windows, n, k, b
 # ---------------------------------------------------------------------------
 # order of the steps
 
-def record_specs(rate, n, k, nrec):
-    """[(components, degrees_from_north)] - lengths differ between the recordings."""
+def record_specs(rate, n, k, nrec, cache=None):
+    """[(components, degrees_from_north)] - lengths differ between the recordings.
+
+    The arrays are never written to (every consumer copies them into fresh
+    TimeSeries objects), so one root may share them between its cases.
+    """
+    cache = {} if cache is None else cache
+
+    def comps(m, seed):
+        if (m, seed) not in cache:
+            cache[(m, seed)] = busy_components(m, rate, seed)
+            for a in cache[(m, seed)].values():
+                a.setflags(write=False)
+        return cache[(m, seed)]
     if nrec == "one":
-        return [(busy_components(n, rate, 1), 0.0)]
-    return [(busy_components(n, rate, 1), 0.0),
-            (busy_components(n + k, rate, 2), 15.0),
-            (busy_components(max(n - 1, 1), rate, 3), 0.0)]
+        return [(comps(n, 1), 0.0)]
+    return [(comps(n, 1), 0.0), (comps(n + k, 2), 15.0), (comps(max(n - 1, 1), 3), 0.0)]
 
 
 def _ts_filter(a, dt, corners):
@@ -398,12 +408,13 @@ def run_order(root, ctx, tier):
     n = n_samples_of(label, k)
     if n < 1:
         return
+    cache = {}
     for ci, di, oi, ni in root["cases"]:
         corners, detrend, orient, nrec = CORNERS[ci], DETREND[di], ORIENT[oi], NREC[ni]
         case = dict(rate=rate, dt=dt, window=window, n_samples=n, k=k, corners=corners,
                     detrend=detrend, orient=orient, recordings=nrec, records=BUSY_TEXT)
         ctx.count("states")
-        specs = record_specs(rate, n, k, nrec)
+        specs = record_specs(rate, n, k, nrec, cache)
         scale = max(float(np.max(np.abs(comps[c]))) for comps, _ in specs for c in COMPONENTS)
         recs = [make_record(comps, dt, dfn) for comps, dfn in specs]
         settings = make_settings(window, corners, detrend, orient)
@@ -439,8 +450,8 @@ def run_order(root, ctx, tier):
                                    "SeismicRecording3C.orient_sensor_to",
                           observed=text,
                           explanation=f"preprocess output is not the documented pipeline: {text}")
-        # the wrong orders, for non-vacuity (single recording cases)
-        if nrec == "one":
+        # the wrong orders, for non-vacuity (single recording, no rotation)
+        if nrec == "one" and orient is None:
             for wrong, active in (("filter-after-split", filt), ("detrend-before-split", detr)):
                 if not active:
                     continue
